@@ -109,6 +109,12 @@ def build(run):
         ("list tensor matrix [[u,0],[0,0]]", lambda: inner(ufl.as_matrix([[u, 0], [0, 0]]), grad(vv)) * dx - f * vv[0] * dx),
         ("list tensor matrix [[0,0],[grad u . w, 0]]", lambda: inner(ufl.as_matrix([[0, 0], [dot(grad(u), w_), 0]]), grad(vv)) * dx + dot(w_, vv) * dx),
         ("list tensor of test components [v0, 0]", lambda: u * dot(as_vector([vv[0], 0]), w_) * dx - f * dot(as_vector([vv[1], 0]), w_) * dx),
+        # a linear operator (restriction, jump / avg, conj, grad) wrapping a sum whose terms have different arity
+        ("restricted affine sum (u - g)('+')", lambda: (u - g)("+") * v("+") * dS),
+        ("jump of an affine sum", lambda: f * jump(u - g) * jump(v) * dS + avg(u - f) * v("-") * dS),
+        ("conj of an affine sum", lambda: v * conj(u - g) * dx),
+        ("grad of an affine sum", lambda: inner(grad(u - f * g), grad(v)) * dx + (u - g) * v * ds),
+        ("affine sum with a functional term under a restriction", lambda: (u - g)("-") * v("-") * dS + g * g * dx),
         # forms with a single argument plus argument-free terms (separate integrals, or inside the same integrand)
         ("linear + functional terms", lambda: f * v * dx + g * dx + g * f * ds),
         ("linear + functional in one integrand", lambda: (f * v + g) * dx),
